@@ -348,7 +348,7 @@ def gen_helper(world, rng, insts, target, hkind=None, validity="valid", inplace=
         if validity == "raising_cb":
             op["kwargs"][chosen[-1]] = ["fn", "boom"]
         elif validity == "nonconf":
-            op["kwargs"][chosen[-1]] = ["fn", "to_obj"]
+            op["kwargs"][chosen[-1]] = ["fn", cg.bad_transform(rng, tk=attrs[chosen[-1]][1].tk)]
             op["position"] = "transform_result"
         elif validity == "unknown_kw":
             op["kwargs"]["no_such_attribute"] = ["fn", "same"]
@@ -450,7 +450,7 @@ def gen_helper(world, rng, insts, target, hkind=None, validity="valid", inplace=
                 else:
                     op["kwargs"]["v"] = ["fn", "boom"]
             elif validity == "nonconf":
-                op["args"] = [["fn", "to_obj"]]
+                op["args"] = [["fn", cg.bad_transform(rng, tk=a.tk)]]
                 op["kwargs"].pop("v", None)
                 op["form"], op["position"] = "fn", "transform_result"
             elif validity == "unknown_kw":
@@ -499,7 +499,7 @@ def gen_helper(world, rng, insts, target, hkind=None, validity="valid", inplace=
     def new_elem():
         if elem == "kleaf":
             used = {getattr(x, "k", None) for x in (items or [])}
-            free = [k for k in ["a", "b", "c", "d", "e", "f"] if k not in used] or ["g"]
+            free = [k for k in ["a", "b", "c", "d", "e", "f", ""] if k not in used] or ["g"]
             return cg.elem_conf(elem, rng, rng.choice(free))
         return cg.elem_conf(elem, rng)
 
@@ -595,7 +595,7 @@ def gen_helper(world, rng, insts, target, hkind=None, validity="valid", inplace=
             if validity == "raising_cb":
                 fn = "boom"
             if validity == "nonconf":
-                fn = "to_obj"
+                fn = cg.bad_transform(rng, elem=elem)
                 op["position"] = "transform_result"
             if spec_elem and rng.random() < 0.4 and validity not in ("nonconf",):
                 op["kwargs"]["v"] = ["fn", "boom" if validity == "raising_cb" else "inc"]
@@ -650,7 +650,7 @@ def gen_helper(world, rng, insts, target, hkind=None, validity="valid", inplace=
             if validity == "raising_cb":
                 fn = "boom"
             if validity == "nonconf":
-                fn, op["position"] = "to_obj", "transform_result"
+                fn, op["position"] = cg.bad_transform(rng, elem=elem), "transform_result"
             op["form"] = "key,fn"
             op["args"] = [cg.R_lit(key), ["fn", fn]]
         else:
@@ -690,7 +690,7 @@ def gen_helper(world, rng, insts, target, hkind=None, validity="valid", inplace=
             if validity == "raising_cb":
                 fn = "boom"
             if validity == "nonconf":
-                fn, op["position"] = "to_obj", "transform_result"
+                fn, op["position"] = cg.bad_transform(rng, elem=elem), "transform_result"
             op["form"] = ("key" if by_key else "item") + ",fn"
             op["args"] = [cg.R_lit(a_key()) if by_key else an_elem_value(), ["fn", fn]]
         else:
@@ -802,6 +802,7 @@ def shape_features(world, cname):
         "has_key": bool(d.flag(cname, "key")),
         "has_prop": bool(d.props_of(cname)),
         "has_invalidated_by": any(a.invalidated_by for _, a in attrs.values()),
+        "delegating_init": any(k.delegating_init for k in d.lineage(cname)),
     }
 
 
@@ -902,11 +903,33 @@ def value_slots(world, insts, op):
     return out
 
 
-def substitute_nonconf(op, slot, rng):
-    """Copy of `op` with the value at `slot` replaced by one that does not conform at exactly that position."""
+def _equal_twin(cur):
+    """A value of another type that compares equal to the int `cur` (1.0 == 1), or None."""
+    if isinstance(cur, int) and not isinstance(cur, bool):
+        return cg.R_lit(float(cur))
+    return None
+
+
+def substitute_nonconf(op, slot, rng, insts=None):
+    """
+    Copy of `op` with the value at `slot` replaced by one that does not conform at exactly that position. With `insts`,
+    the replacement is sometimes drawn from the receiver's current state: a value of the wrong type that compares equal
+    to the one currently stored (an "unchanged value" shortcut must not let it through).
+    """
     where, key, expected = slot
     bad_op = copy.deepcopy(op)
-    if expected[0] == "attr":
+    twin = None
+    if insts is not None and "target" in op and rng.random() < 0.3:
+        state = getattr(insts[op["target"]], "__dict__", {})
+        if expected[0] == "attr" and expected[1] in ("int", "int2", "optint", "union", "bnd"):
+            twin = _equal_twin(state.get(cg.TYPES[expected[1]].name))
+        elif expected[0] == "elem" and expected[1] == "int":
+            cur = state.get(op.get("attr"))
+            vals = list(cur.values()) if isinstance(cur, dict) else list(cur) if isinstance(cur, (list, set)) else []
+            twin = _equal_twin(rng.choice(sorted(vals, key=repr))) if vals else None
+    if twin is not None:
+        rec, tag = twin, ("equal_value_other_type" if expected[0] == "attr" else "element:equal_value_other_type")
+    elif expected[0] == "attr":
         rec, tag = rng.choice(cg.nonconf_recipes(expected[1]))
     elif expected[0] == "elem":
         rec, tag = rng.choice(cg.elem_nonconf(expected[1]))
